@@ -31,6 +31,7 @@ PROPS = {
         "harnesses": [
             {"pkg": "interpreter", "name": "VH_C04_Accept", "quick": {"params": {"IN": 2, "OUT": 2}}, "thorough": {"params": {"IN": 3, "OUT": 3}}},
             {"pkg": "interpreter", "name": "VH_C04_Accept", "quick": {"params": {"IN": 1, "OUT": 1, "INSC": 1}}, "thorough": {"params": {"IN": 2, "OUT": 2, "INSC": 1}}},
+            {"pkg": "interpreter", "name": "VH_C04_AcceptAll", "quick": {"params": {"IN": 2, "OUT": 2}}, "thorough": {"params": {"IN": 3, "OUT": 2}}},
             {"pkg": "interpreter", "name": "VH_C04_Commit", "quick": {"params": {"IN": 2, "OUT": 2}}, "thorough": {"params": {"IN": 2, "OUT": 3}}},
         ],
         "assumptions": [],
